@@ -499,7 +499,7 @@ theorem checkFile_macrosOnly_doc (cfg : Cfg) (w : World) (fuel : Nat) (rc : List
 
 /-- `a` is an ExplorerScript file of the world with an import statement resolving to `b` -/
 def Imports (w : World) (a b : String) : Prop :=
-  ∃ f, w.get? a = some f ∧ f.isSsbScript = false ∧ some b ∈ f.imports
+  ∃ f, w.get? a = some f ∧ f.isSsbScript = false ∧ some b ∈ f.resolved w
 
 def IsImportChain (w : World) : List String → Prop
   | [] => True
@@ -517,8 +517,8 @@ theorem checkFile_fail_of_import (cfg : Cfg) (w : World) (fuel : Nat) (rc : List
     (hb : rc.contains b = true ∨ ∃ e, checkFile cfg w fuel (rc ++ [a]) b true = .error e) :
     ∃ e, checkFile cfg w (fuel + 1) rc a mo = .error e ∧ e ∈ documented := by
   obtain ⟨f, hf, hs, hm⟩ := hi
-  obtain ⟨e, he⟩ := importAll_fail (fun s => checkFile cfg w fuel (rc ++ [a]) s true) rc b f.imports [] hm hb
-  have hd := import_phase_doc cfg w fuel rc a f.imports e he
+  obtain ⟨e, he⟩ := importAll_fail (fun s => checkFile cfg w fuel (rc ++ [a]) s true) rc b (f.resolved w) [] hm hb
+  have hd := import_phase_doc cfg w fuel rc a (f.resolved w) e he
   simp only [checkFile, hf, hs, Bool.false_eq_true, if_false, he]
   split
   · exact ⟨_, rfl, by simp [documented]⟩
